@@ -74,6 +74,10 @@ Section Ops.
 
   Lemma bwf_set_default b d : bwf b -> bwf (set_default b d).
   Proof. intros [W1 W2 W3 W4 W5 W6 W7 W8 W9]. constructor; cbn; assumption. Qed.
+  Lemma bwf_set_name b n : bwf b -> bwf (set_name b n).
+  Proof. intros [W1 W2 W3 W4 W5 W6 W7 W8 W9]. constructor; cbn; assumption. Qed.
+  Lemma bwf_set_version b v : bwf b -> bwf (set_version b v).
+  Proof. intros [W1 W2 W3 W4 W5 W6 W7 W8 W9]. constructor; cbn; assumption. Qed.
 
   Lemma literal_wf b n e v : bwf b -> ~ In n (keys (b_aliases b)) -> bwf (literal b n e v).
   Proof. intros W Ha. unfold literal. apply bwf_nodes_dset; [exact W|exact I|exact Ha]. Qed.
@@ -169,7 +173,7 @@ Section Ops.
 
   Theorem apply_op_wf b o : bwf b -> op_pre b o -> bwf (fst (apply_op norm set_of b o)).
   Proof.
-    intros W P. destruct o as [n ts|n e v|n code s ins|n code s ins|n ins|a t|a ok|p tg|n|n]; cbn [apply_op fst op_pre] in *.
+    intros W P. destruct o as [n ts|n e v|n code s ins|n code s ins|n ins|a t|a ok|p tg|n|n|nm|vv]; cbn [apply_op fst op_pre] in *.
     - unfold create_input. destruct (avail b n) eqn:Av; [|exact W]. cbn [fst].
       unfold avail in Av. apply andb_true_iff in Av. destruct Av as [_ Av]. apply negb_true_iff in Av.
       apply bwf_nodes_dset; [exact W|cbn; apply set_of_spec|apply dmem_false; exact Av].
@@ -203,6 +207,8 @@ Section Ops.
       + cbn [fst]. apply bwf_defaults_dset; [apply literal_wf; assumption|]. unfold literal. cbn. apply in_keys_dset. left. reflexivity.
     - apply bwf_set_default. exact W.
     - unfold clear_inputs. apply bwf_edges_dset; [exact W|constructor|intros ? []].
+    - apply bwf_set_name. exact W.
+    - apply bwf_set_version. exact W.
   Qed.
 
   (* histories: every operation meets its precondition in the state it is applied to *)
